@@ -445,6 +445,7 @@ def oracle(case, impl, run):
     fails = []
     outs = impl['outs']
     reqs = {}          # op index -> canonical request (with references resolved to task ids)
+    raw_userun = {}    # op index -> the UseRun/make request as written
     use_ids = {}
     nontriv = False
 
@@ -480,6 +481,7 @@ def oracle(case, impl, run):
             reqs[i] = (kind, op[1], posts, op[o], tuple(op[o + 1]),
                        tuple(sorted(defaults.items())), tuple(map(tuple, op[o + 3])),
                        tuple(rid(t) for t in op[o + 4]), tuple(rid(t) for t in op[o + 5]))
+            raw_userun[i] = reqs[i]
             if posts and isinstance(out, dict):
                 # the task returned by UseRun(...)(**kw) is the Use task of the last post-processing function,
                 # injecting the result of the previous task of the chain
@@ -507,6 +509,12 @@ def oracle(case, impl, run):
             if isinstance(first, dict) and first != out:
                 fails.append(('same_request_same_task', f'identical requests at ops #{by_req[strict]} and #{i} answered {first} / {out}'))
         by_req.setdefault(strict, i)
+    seen_raw = {}
+    for i, req in raw_userun.items():
+        if req in seen_raw and isinstance(outs[seen_raw[req]], dict) and outs[seen_raw[req]] != outs[i]:
+            fails.append(('same_request_same_task', f'identical factory requests at ops #{seen_raw[req]} and #{i} answered '
+                          f'{outs[seen_raw[req]]} / {outs[i]}'))
+        seen_raw.setdefault(req, i)
     # behaviour of the returned task = its own request
     beh = dict((tid, b) for tid, b in impl['tasks'])
     names = impl['names']
